@@ -4,6 +4,7 @@ package zzverif
 // transport, replayed through the Lean model, shrunk and stored as a replay).
 
 import (
+	"net/url"
 	"crypto/sha256"
 	"encoding/hex"
 	"encoding/json"
@@ -46,6 +47,21 @@ type Op struct {
 	Replies []Reply `json:"replies,omitempty"` // k-th origin call of this exchange gets Replies[min(k,len-1)]
 	Faults  []Fault `json:"faults,omitempty"`
 	Cancel  string  `json:"cancel,omitempty"` // "", "before", "after": caller context cancellation
+	// SetPath: after the request was built from URL, its URL.Path is set to this (a client that assigns the
+	// field, or url.URL.JoinPath on a base without a path: a path WITHOUT the leading slash)
+	SetPath string `json:"set_path,omitempty"`
+}
+
+// opURL: the url.URL value the caller's request carries
+func opURL(op Op) (*url.URL, error) {
+	u, err := url.Parse(op.URL)
+	if err != nil {
+		return nil, err
+	}
+	if op.SetPath != "" {
+		u.Path, u.RawPath = op.SetPath, ""
+	}
+	return u, nil
 }
 
 type History struct {
